@@ -108,8 +108,8 @@ def convert_board_log(data: dict) -> BoardLog:
         'play_history'] is not None else None
     score_type: Optional[str] = data[
         'score_type'] if 'score_type' in data else None
-    scores: Optional[Dict[Pair, int]] = data[
-        'scores'] if 'scores' in data else None
+    scores: Optional[Dict[Pair, int]] = {Pair[p]: score for p, score in data[
+        'scores'].items()} if 'scores' in data else None
 
     return BoardLog(players=players,
                     hands=board_setting.hands,
